@@ -115,7 +115,7 @@ def setDb (st : St) (run : Nat) (db : DB) : St :=
   { st with dbs := (run, db) :: st.dbs.filter (fun p => p.1 != run) }
 
 def showRPc : RPc → String
-  | .absent => "absent" | .start => "start" | .won t => s!"won@{t}" | .sentRelease t => s!"sent@{t}" | .done => "done" | .lostCas => "lost"
+  | .absent => "absent" | .start => "start" | .won t => s!"won@{t}" | .sentRelease t inc => s!"sent@{t}/{inc}" | .done => "done" | .lostCas => "lost"
 def showUPc : UPc → String
   | .absent => "absent" | .start => "start" | .pass => "pass" | .waiting => "waiting" | .owner => "owner" | .done => "done"
 def showMsg : Msg → String
@@ -127,7 +127,7 @@ def showSys (st : St) : String :=
   let s := st.sys
   let rs := ",".intercalate (st.rids.map fun i => s!"{i}:{showRPc (s.rel i)}{if s.crashed i then "x" else ""}")
   let us := ",".intercalate (st.uids.map fun k => s!"{k}:{showUPc (s.res k)}")
-  s!"now={s.now} {showRow s.db} up={b01 s.wfUp} inbox={",".intercalate (s.inbox.map showMsg)} processed={nats s.processed} stranded={nats s.stranded} R={rs} U={us} wins={",".intercalate (s.wins.map showWin)} holder={showOpt s.holder} takeovers={s.takeovers.length} busyStops={s.busyStops}"
+  s!"now={s.now} {showRow s.db} up={b01 s.wfUp}/{s.wfInc} inbox={",".intercalate (s.inbox.map showMsg)} processed={nats s.processed} stranded={nats s.stranded} R={rs} U={us} wins={",".intercalate (s.wins.reverse.map showWin)} holder={showOpt s.holder} takeovers={s.takeovers.length} busyStops={s.busyStops}"
 
 def applyB (st : St) (a : BAct) : St × String :=
   match Lifecycle.bstep st.sys a with
